@@ -36,7 +36,7 @@ Matching(cf, i) == {x \in 1..Len(cf.views) : Match(cf.views[x], i)}
 Wanted(cf, i) == IF Matching(cf, i) = {} THEN {Id(DefaultStream(i))}
                  ELSE {Id(StreamOf(cf.views[x], i)) : x \in Matching(cf, i)}
 ViewsDecl(k) ==
-  LET cf == Configs[k]
+  LET cf == CfgTab[k]
       tab == Tabs[k]
   IN /\ \A x, y \in 1..Len(tab) : Id(tab[x]) = Id(tab[y]) => x = y
      /\ \A j \in 1..Len(cf.insts) :
@@ -46,7 +46,7 @@ ViewsDecl(k) ==
                 \A t \in FMaps[k][j] : tab[t].agg = DefaultAgg(cf.insts[j].kind) /\ ~tab[t].filt.on
                                         /\ tab[t].unit = cf.insts[j].unit /\ tab[t].desc = cf.insts[j].desc)
      /\ \A t \in 1..Len(tab) : \E j \in 1..Len(cf.insts) : t \in FMaps[k][j]
-ASSUME \A k \in 1..Len(Configs) : ViewsDecl(k)
+ASSUME \A k \in 1..NCfg : ViewsDecl(k)
 
 HInit == Init /\ hist = <<>> /\ phist = <<>>
 HNext == /\ Next
